@@ -189,7 +189,10 @@ func sameFile(f1, f2 *currentPath, differ DiffType) (same bool, retErr error) {
 	}
 	// If not a directory also check size, modtime, and content
 	if !f1.stat.IsDir() {
-		if f1.stat.Size != f2.stat.Size {
+		// (the size a file system reports for a symlink need not be the
+		// length of its target: sysfs and procfs say 0. The targets
+		// themselves are compared below)
+		if f1.stat.Size != f2.stat.Size && os.FileMode(f1.stat.Mode)&os.ModeSymlink == 0 {
 			return false, nil
 		}
 
